@@ -869,6 +869,10 @@ class DFA:
         if isinstance(chained_dfa.starting_state, DFProxyState):
             # Add an extra state that will represent the condition point properly (see docs for equivalent_on_values)
             valid, to_else = chained_dfa.starting_state.equivalent_on_values()
+            if not valid and not to_else and isinstance(chained_dfa.starting_state, DFConditionPoint):
+                # Nothing is known yet about what the branches lead to (e.g. they end a loop body, whose way back is only added
+                # later): reach the condition on any symbol rather than copying its transitions as if they matched input.
+                valid = {DFTransition.Else}
             if valid:
                 fake_start = DFState()
                 chained_dfa.add(fake_start)
